@@ -33,8 +33,11 @@ def main():
     run.sample({"items": obs[len(obs) // 3]["items"], "queries": obs[len(obs) // 3]["obs"].get("queries", [])[:3]})
     # (2) histories
     hb = []
-    for f in (1, 2, 3):
-        cfg = "MC_Reader_%s%d.cfg" % ("t" if run.thorough else "q", f)
+    # quick: histories of 2 calls (3 with the caching start) over {interval, values, zoom}; thorough: 3 calls - without zoom queries on
+    # files 1 and 3 (the state space triples), with them on file 2 - plus the quick configurations of files 1 and 3
+    for cfg in (["MC_Reader_t1.cfg", "MC_Reader_t2.cfg", "MC_Reader_t3.cfg", "MC_Reader_q1.cfg", "MC_Reader_q3.cfg"] if run.thorough else
+                ["MC_Reader_q1.cfg", "MC_Reader_q2.cfg", "MC_Reader_q3.cfg"]):
+        f = int(cfg[-5])
         r = tlc("MC_Reader", cfg, os.path.join(run.wd, "mc_reader%d" % f), workers=6, timeout=3000, xmx="8g")
         tlc_must_pass(r, "Reader.tla HistoryIndependent/CacheCoherent (%s)" % cfg)
         run.add_tlc(cfg[:-4], r)
@@ -44,8 +47,8 @@ def main():
     hcases = []
     for k, b in enumerate(hb):
         nchrom = max(it[0] for it in b["items"])
-        hcases.append({"kind": "bw", "chroms": [6] * nchrom, "items": b["items"], "hist": b["hist"], "vmap": "int", "scale": 1,
-                       "opts": {"ips": 1, "bs": b["bs"], "zooms": [], "zmode": "manual", "compress": k % 2, "inmem": 1, "threads": 1, "rt": "current", "pass": 1, "chan": 100}})
+        hcases.append({"kind": "bw", "chroms": [6] * nchrom, "items": b["items"], "hist": b["hist"], "vmap": "int", "scale": 1, "zrecs": b.get("zrecs", []),
+                       "opts": {"ips": 1, "bs": b["bs"], "zooms": [2] if b.get("zrecs") else [], "zmode": "manual", "compress": k % 2, "inmem": 1, "threads": 1, "rt": "current", "pass": 1, "chan": 100}})
     # (2b) a tenth of the histories end with N readers obtained by reopen(), used AT THE SAME TIME from N threads (what the
     #      multi-threaded converters do): a reopened reader must not share its file position with the one it came from
     for k, hc in enumerate(hcases):
@@ -75,11 +78,13 @@ def main():
     bad = validate_obs("Obs_Reader", "Obs.cfg", lines, run.wd, "hist")
     run.cov["traces_validated_against_impl"] += len(hobs)
     run.cov["histories"] = len(hobs)
+    run.cov["histories_with_zoom_queries"] = sum(1 for o in hobs if any(h["op"] == "zoom" for h in o["hist"]))
+    run.cov["histories_zoom_then_data"] = sum(1 for o in hobs if any(h["op"] == "zoom" and any(g["op"] in ("interval", "values") for g in o["hist"][i + 1:]) for i, h in enumerate(o["hist"])))
     for i, tag in bad:
         o = hobs[i]
         run.violation("C03 history %s: %s" % (json.dumps(o["hist"])[:300], tag), {"kind": "reader", "tag": tag, "case": {k: o[k] for k in o if k not in ("obs",) and not (k == "items" and o.get("long"))}, "obs": o["obs"]})
     run.sample({"history": hobs[len(hobs) // 2]["hist"], "answers": hobs[len(hobs) // 2]["obs"].get("answers")})
-    run.cov["rule"] = ("(1) all layouts x all ranges; (2) all histories of length <= MaxSteps over {interval, values} x boundary ranges + to-cached + reopen on 3 fixed "
+    run.cov["rule"] = ("(1) all layouts x all ranges; (2) all histories of length <= MaxSteps over {interval, values, zoom-level query} x boundary ranges + to-cached + reopen on 3 fixed "
                        "multi-level files; (3) one history over 6000 blocks crossing the real cache reset; non-trivial = at least 2 values / a history that converts or reopens; "
                        "distinct by (items, history)")
     run.assumptions += ["the model's cache capacity is 2; the real capacity 5000 is crossed by one fixed long history"]
